@@ -40,10 +40,17 @@ for sid in sys.argv[1:]:
                 shutil.rmtree(wt, ignore_errors=True)
                 rc0, out0 = sh(f"git -C /repo worktree add -f {wt} {base}")
                 if rc0 == 0:
+                    # is the unchanged base itself still accepted by the current check? (a later fix: commit may be exactly what
+                    # the check now demands; then a VIOLATION on base + change says nothing about the change)
+                    rcb, outb = sh(f"VERIF_REPO={wt} ./check {pid} --tier quick", cwd=ROOT)
+                    rec["base_accepted"] = rcb == 0
                     rc, out = sh(f"git apply {d}/patch.diff", cwd=wt)
                     if rc == 0:
                         rec["applied_on_base"] = base
-                        # is the unchanged base itself still accepted by the current check? (a later fix may be what the check now demands)
+                    if rcb != 0:
+                        rc = 1
+                        rec["note"] = f"the current check rejects the unchanged base {base} (a defect repaired later): not re-run"
+
         rec["patch_applies"] = rc == 0
         if rc == 0:
             t0 = time.time()
